@@ -19,6 +19,23 @@ mod gui {
     }
 }
 
+// the reference peer of the protocol harness (crate vh), shared by path
+#[path = "../../harness/src/refpeer.rs"]
+mod refpeer;
+#[path = "../../harness/src/tlspeer.rs"]
+mod tlspeer;
+#[path = "../../harness/src/nlapeer.rs"]
+mod nlapeer;
+#[path = "../../harness/src/nlafault.rs"]
+mod nlafault;
+#[path = "../../harness/src/faults.rs"]
+mod faults;
+mod drv_connect {
+    pub fn cps_to_string(v: Option<&serde_json::Value>) -> String {
+        v.and_then(|x| x.as_array()).map(|a| a.iter().filter_map(|c| c.as_u64()).filter_map(|c| std::char::from_u32(c as u32)).collect()).unwrap_or_default()
+    }
+}
+
 mod blit;
 mod rx;
 
